@@ -370,6 +370,93 @@ func C15(t Tier) int {
 		}
 		seq(nil)
 	}
+	// Gas-limit sweep: a transaction that runs out of gas at ANY point fails as a whole. For a few multi-message transactions
+	// every gas limit from 0 to past what the transaction needs (in steps of `stride`) is tried on a fork of the populated state:
+	// either the transaction succeeds and the custom state equals the state after the same transaction with ample gas, or it
+	// fails and the custom state is the base state - never something in between - and balances move by the fee only.
+	sweepEvals, sweepOK, sweepFailed := 0, 0, 0
+	{
+		stride := uint64(5)
+		if t.Thorough {
+			stride = 1
+		}
+		w := populated(e)
+		base := dumpCustom(w)
+		doc5 := k.doc("D5", e.Did)
+		sweeps := []struct {
+			name    string
+			msgs    []sdk.Msg
+			signers []*world.Account
+		}{
+			{"[AddRecord(A,a,by=W), CreateTopic(W,g15), AddRecord(A,a,by=W)]", []sdk.Msg{
+				aoltypes.NewMsgAddRecordRequest("a", []byte("g1"), []byte("v1"), e.W.Bech, e.A.Bech, ""),
+				aoltypes.NewMsgCreateTopic("g15", "", e.W.Bech),
+				aoltypes.NewMsgAddRecordRequest("a", []byte("g2"), []byte("v2"), e.W.Bech, e.A.Bech, "")}, []*world.Account{e.W}},
+			{"[UpdateDID(d1,D5), Mint(d,g,A), AddWriter(A,a,B)]", []sdk.Msg{
+				&didtypes.MsgUpdateDIDRequest{Did: e.Did, Document: doc5, VerificationMethodId: k.vmID(e.Did, 1), Signature: k.sign(doc5, 0, 1), FromAddress: e.A.Bech},
+				pnfttypes.NewMsgMintPNFTRequest("d", "g", "n", "", "", "", e.A.Bech, ""),
+				aoltypes.NewMsgAddWriter("a", "b", "", e.B.Bech, e.A.Bech)}, []*world.Account{e.A}},
+			{"[TransferPNFT(d,t,A->B), DeleteWriter(A,a,W)]", []sdk.Msg{
+				pnfttypes.NewMsgTransferPNFTRequest("d", "t", e.A.Bech, e.B.Bech),
+				aoltypes.NewMsgDeleteWriter("a", e.W.Bech, e.A.Bech)}, []*world.Account{e.A}},
+		}
+		fee := sdk.NewCoins(sdk.NewInt64Coin("umed", 1000))
+		for _, sw := range sweeps {
+			discard := w.Fork()
+			full := w.Send(world.TxSpec{Msgs: sw.msgs, Signers: sw.signers, Fee: fee, Gas: 5000000})
+			fullState := dumpCustom(w)
+			discard()
+			if full.Code != 0 {
+				run.Add(report.Viol{Kind: "unexpected-result", Sig: "unexpected-result:gas-sweep:" + sw.name, Msg: fmt.Sprintf("gas sweep %s: with ample gas the transaction fails: %s", sw.name, firstLineOf(full.Log)), Replay: map[string]any{"case": "gas-sweep|" + sw.name}})
+				continue
+			}
+			need := uint64(full.GasUsed)
+			for g := uint64(1); g <= need+2*stride; g += stride { // (a gas limit of 0 means "default" to the driver)
+				sweepEvals++
+				balBefore, supBefore := allBalances(w)
+				discard := w.Fork()
+				res := w.Send(world.TxSpec{Msgs: sw.msgs, Signers: sw.signers, Fee: fee, Gas: g})
+				after := dumpCustom(w)
+				balAfter, supAfter := allBalances(w)
+				discard()
+				label := fmt.Sprintf("gas-sweep|%s|gas=%d (needs %d)", sw.name, g, need)
+				want := base
+				if res.Code == 0 {
+					want = fullState
+					sweepOK++
+				} else {
+					sweepFailed++
+				}
+				if diff := sameCustom(want, after); diff != "" {
+					kind := "partial-effect"
+					if res.Code == 0 {
+						kind = "partial-effect-committed"
+					}
+					run.Add(report.Viol{Kind: kind, Sig: kind + ":gas-sweep:" + sw.name, Msg: fmt.Sprintf("%s: code %d, but the custom state is neither untouched nor the full effect: %s", label, res.Code, diff), Replay: map[string]any{"case": label}})
+					break
+				}
+				if !supBefore.IsEqual(supAfter) {
+					run.Add(report.Viol{Kind: "supply-changed", Sig: "supply-changed:gas-sweep:" + sw.name, Msg: fmt.Sprintf("%s: total supply %s -> %s", label, supBefore, supAfter), Replay: map[string]any{"case": label}})
+					break
+				}
+				bad := ""
+				for a, b := range balAfter {
+					if a == sw.signers[0].Bech || a == feeCollector {
+						continue
+					}
+					if !b.IsEqual(balBefore[a]) {
+						bad = a
+					}
+				}
+				if bad != "" {
+					run.Add(report.Viol{Kind: "balance-changed", Sig: "balance-changed:gas-sweep:" + sw.name, Msg: fmt.Sprintf("%s: balance of %s changed", label, bad), Replay: map[string]any{"case": label}})
+					break
+				}
+			}
+		}
+		run.Coverage["gas_sweep"] = map[string]any{"transactions": len(sweeps), "stride": stride, "evaluations": sweepEvals, "succeeded": sweepOK, "failed": sweepFailed,
+			"rule": "every gas limit 0, stride, 2*stride, ... up to past the gas the transaction needs: failed => custom state untouched; succeeded => custom state equals the full effect; only payer and fee collector balances move; supply constant"}
+	}
 	_ = banktypes.ModuleName
 	var oc []string
 	for k, v := range outcomes {
